@@ -315,3 +315,73 @@ def illegal_mid_sequence(simname='Simulation', k=2, with_expected=False):
         return dict(failed=True, observed=dict(steps_before_error=got[0], trace=got[1], inspect=got[2]),
                     expected=dict(steps_before_error=ref[0], trace=ref[1], inspect=ref[2]))
     return dict(failed=False, observed='ok', expected='ok')
+
+
+@__import__('fam.designs', fromlist=['design']).design
+def vcd_names(w=3):
+    """traced wires whose names need sanitising for VCD, next to wires named like their
+    punctuation-replaced forms, and names that differ only by where leading zeros sit"""
+    import pyrtl
+    names = ['alu.sum', 'alu_sum', 'a.b', 'a[b', 'a_b', 'x.y', 'x_y', 's01_2', 's1_02', 's1_2']
+    ins = [pyrtl.Input(w, 'in%d' % i) for i in range(2)]
+    acc = ins[0]
+    for i, nm in enumerate(names):
+        wv = pyrtl.WireVector(w, nm)
+        wv <<= (acc + i + ins[1])[:w]
+        acc = wv
+    o = pyrtl.Output(w, 'out0')
+    o <<= acc
+
+
+def step_multiple_after_warmup(simname='Simulation', warm=3):
+    """step_multiple(expected_outputs=...) on a simulation that already ran: correct expectations
+    produce no report; one wrong expectation produces exactly that row with the true value"""
+    import io
+    import contextlib
+    import pyrtl
+
+    def build():
+        pyrtl.reset_working_block()
+        a = pyrtl.Input(3, 'a')
+        r = pyrtl.Register(5, 'r')
+        r.next <<= (r + a + 1)[:5]
+        o = pyrtl.Output(5, 'o')
+        o <<= r ^ a
+        o2 = pyrtl.Output(3, 'o2')
+        o2 <<= a
+        return pyrtl.working_block()
+    vals = [1, 5, 2, 7, 3, 6, 4]
+    b = build()
+    ref = _mk(simname, b)
+    outs = []
+    for v in vals:
+        ref.step({'a': v})
+        outs.append((ref.inspect('o'), ref.inspect('o2')))
+    b = build()
+    sim = _mk(simname, b)
+    for v in vals[:warm]:
+        sim.step({'a': v})
+    rest = vals[warm:]
+    good = {'o': [x[0] for x in outs[warm:]], 'o2': [x[1] for x in outs[warm:]]}
+    buf = io.StringIO()
+    try:
+        sim.step_multiple({'a': rest}, dict(good), file=buf)
+    except Exception as e:
+        return dict(failed=True, observed='%s: %s' % (type(e).__name__, str(e)[:100]), expected='no exception')
+    if 'Unexpected' in buf.getvalue() or 'unexpected' in buf.getvalue():
+        return dict(failed=True, observed=buf.getvalue()[:300], expected='no mismatch report (all expectations correct)')
+    b = build()
+    sim = _mk(simname, b)
+    for v in vals[:warm]:
+        sim.step({'a': v})
+    bad = {'o': list(good['o']), 'o2': list(good['o2'])}
+    k = len(rest) - 1
+    bad['o'][k] = (bad['o'][k] + 1) % 32
+    buf = io.StringIO()
+    sim.step_multiple({'a': rest}, bad, file=buf)
+    text = buf.getvalue()
+    rows = [ln.split() for ln in text.splitlines() if ln.strip() and ln.split()[0].isdigit()]
+    want = [str(k), 'o', str(bad['o'][k]), str(good['o'][k])]
+    if rows != [want]:
+        return dict(failed=True, observed=dict(rows=rows, text=text[:200]), expected=dict(rows=[want]))
+    return dict(failed=False, observed='ok', expected='ok')
